@@ -797,6 +797,9 @@ func (env *Env) evalCall(e *ECall) TV {
 		if x.V.K != VIface {
 			efail("cast of non-interface")
 		}
+		if _, isI := ty.Underlying().(*types.Interface); isI {
+			return TV{V: x.V, T: ty}
+		}
 		return TV{V: ex.unbox(env.st, ty, x.V.Fs[1].T), T: ty}
 	case "alloc":
 		return TV{V: vInt(ex.get(env.st, allocKey, SInt)), T: untypedInt}
